@@ -71,13 +71,15 @@ Step(e) ==
                          ELSE IF a.kind = "StartFeed" /\ a.f = f /\ a.fk = "dump" /\ hd0.st = "open"
                          THEN Cardinality(M.store[hd0.n][hd0.u].docs[a.c])    \* a dump delivers the existing documents
                          ELSE 0 IN
+            IF N.fd[f].loose \/ M.fd[f].loose THEN 0 ELSE
             F(o.n = wantN, {"C16", "C08"}, e,
               <<IF o.n < wantN THEN "feed-starved" ELSE "unexpected-callback", f, M.fd[f].st, M.fd[f].kind>>, wantN, o.n)
             + F(o.done = N.fd[f].done \/ f \in lag.done, {"C16"} \cup (IF a.kind \in {"Close", "CloseAndDelete"} THEN {"C20"} ELSE {}), e,
                 <<IF o.done THEN "feed-ended-unexpectedly" ELSE "feed-not-ended", f, N.fd[f].kind, a.kind>>, N.fd[f].done, o.done)
         \* goroutines: one runner per collection of every running feed, nothing else
         wantGor == SumOver({f \in FeedIds : N.fd[f].st = "running"}, LAMBDA f : Cardinality(N.fd[f].colls))
-        fGor == F(e.gor - wantGor = lag.gor, {"C20", "C16"}, e, <<"feed-goroutines", a.kind>>, wantGor + lag.gor, e.gor)
+        anyLoose == \E f \in FeedIds : N.fd[f].loose \/ M.fd[f].loose
+        fGor == IF anyLoose THEN 0 ELSE F(e.gor - wantGor = lag.gor, {"C20", "C16"}, e, <<"feed-goroutines", a.kind>>, wantGor + lag.gor, e.gor)
     IN
     /\ M' = N
     /\ lag' = [done |-> {f \in FeedIds : e.fd[f].done # N.fd[f].done}, gor |-> e.gor - wantGor]
